@@ -24,7 +24,7 @@ func c12Corpus(thorough bool) []c12Val {
 	add("j:null", "", "null")
 	add("j:false", "", "false")
 	add("j:true", "", "true")
-	ints := []int64{0, 1, -1, 2147483647, 2147483648, 9007199254740991, 9007199254740992, 9007199254740993, 9223372036854775807, -9223372036854775808, 9223372036854775806}
+	ints := []int64{-9007199254740992, -9007199254740993, 0, 1, -1, 2147483647, 2147483648, 9007199254740991, 9007199254740992, 9007199254740993, 9223372036854775807, -9223372036854775808, 9223372036854775806}
 	for _, i := range ints {
 		s := strconv.FormatInt(i, 10)
 		lit := s
@@ -328,6 +328,9 @@ func checkC12(c Case) *Failure {
 		return checkC12StartsWith(c)
 	case "like-regex":
 		return checkC12Regex(c)
+	case "sequence-rule-by-mode-vs-reference":
+		f, _ := compareQueryWithRef("C12", c, nil)
+		return f
 	}
 	panic("harness: C12 rule")
 }
@@ -393,6 +396,19 @@ func runC12(r *Run) {
 	})
 	runC12Seq(r)
 	runC12Strings(r)
+	// the pairwise rule is decided by the path's mode alone, also below .** (where structural errors are ignored)
+	var es []*Expr
+	for _, pf := range []*Expr{eRoot(sAny(0, -1)), eRoot(sAny(1, 1)), eRoot(sAnyArray()), eRoot()} {
+		for _, op := range cmpOps {
+			for _, rhs := range []*Expr{eInt(1), eStr("a"), eNull(), eTrue()} {
+				es = append(es, pf.withSteps(sFilter(eCmp(op, eCur(sAnyArray()), rhs))), pf.withSteps(sFilter(eCmp(op, rhs, eCur(sAnyArray())))),
+					pf.withSteps(sFilter(eIsUnknown(eCmp(op, eCur(sAnyArray()), rhs)))))
+			}
+		}
+		es = append(es, pf.withSteps(sFilter(eStartsWith(eCur(sAnyArray()), eStr("a")))), pf.withSteps(sFilter(eLikeRegex(eCur(sAnyArray()), "a", ""))),
+			pf.withSteps(sFilter(eIsUnknown(eStartsWith(eCur(sAnyArray()), eStr("a"))))), pf.withSteps(sFilter(eIsUnknown(eLikeRegex(eCur(sAnyArray()), "a", "")))))
+	}
+	refSweep(r, "sequence-rule-by-mode-vs-reference", bothModes(es), makeDocs(Docs(3, stdScalars, stdKeys)), []sweepCfg{{Num: "float64"}})
 }
 
 // ---- sequences ----
